@@ -8,6 +8,8 @@ import (
 	"sort"
 	"strconv"
 
+	"github.com/go-openapi/spec"
+
 	"verifharness/core"
 	"verifharness/gen"
 	"verifharness/oracle"
@@ -127,6 +129,7 @@ func c06Run(env *core.Env, idx int) core.CaseResult {
 		// a value obtained by decoding a generated document
 		g := gen.NewDocGen(rng)
 		g.Refs, g.XOrder, g.EmptyRequired = true, true, rng.Intn(4) == 0
+		g.BigMaps = rng.Intn(4) == 0
 		g.Density = []float64{0.8, 1.3, 1.8}[rng.Intn(3)]
 		g.MaxDepth = 2 + rng.Intn(3)
 		kind := gen.DocKinds[(idx/2)%len(gen.DocKinds)]
@@ -244,6 +247,21 @@ func c06Run(env *core.Env, idx int) core.CaseResult {
 		}
 	}
 	res.Count("order-checked", checkPropertyOrder(first, parsed, propPaths, report))
+	// the exported encoder of ordered properties hands out bytes the caller owns
+	if sch, ok := typed.(*spec.Schema); ok && len(sch.Properties) > 0 {
+		b1, err1 := sch.Properties.ToOrderedSchemaItems().MarshalJSON()
+		keep := append([]byte{}, b1...)
+		aa := spec.Int64Property()
+		aa.AddExtension("x-order", 2)
+		other := spec.SchemaProperties{"zz": *spec.StringProperty(), "aa": *aa}
+		_, _ = other.ToOrderedSchemaItems().MarshalJSON()
+		_, _ = sch.Properties.ToOrderedSchemaItems().MarshalJSON()
+		res.Evals += 3
+		res.Count("ordered-items-sequence", 1)
+		if err1 == nil && !bytes.Equal(b1, keep) {
+			report("encoder-result-overwritten-by-a-later-encoding", fmt.Sprintf("bytes returned by OrderSchemaItems.MarshalJSON changed after another encoding: %s -> %s", core.Abbrev(string(keep), 150), core.Abbrev(string(b1), 150)))
+		}
+	}
 	res.Hash = core.HashBytes(first)
 	hostile := false
 	var scan func(v interface{})
@@ -286,7 +304,7 @@ func init() {
 		Run:      c06Run,
 		Floors: func(env *core.Env) []string {
 			return []string{"source.builder:schema", "source.builder:operation", "source.builder:response", "source.builder:securityScheme", "source.builder:parameter",
-				"source.builder:header", "source.decoded:swagger", "source.decoded:schema", "order-checked", "names-compared", "with-hostile-name-or-x-order"}
+				"source.builder:header", "source.decoded:swagger", "source.decoded:schema", "order-checked", "names-compared", "with-hostile-name-or-x-order", "ordered-items-sequence"}
 		},
 		Assumptions: []string{
 			"an encoding error is accepted (the statement allows it) provided it is not intermittent",
